@@ -44,13 +44,21 @@ func VerifC16MigrateNetmap() {
 	blobA, blobB, blobC := vBlob("nA", 3), vBlob("nB", 3), vBlob("nC", 3)
 	val0 := vBytes("val0", 2)
 
-	vPreset("netmap", []byte(snapshotCountKey), 2)
+	// notary = 8 (era 0): a history that was EXTENDED from 2 to 4 snapshots at ring index 0 and not refilled yet
+	// (updateSnapshotCount exists since 0.15.1): the older map was moved to the tail slot 3, slots 1 and 2 are
+	// missing, so the ring has a hole in the middle that the conversion must step over
+	count, prevSlot := 2, byte(1)
+	if notary == 8 {
+		count, prevSlot = 4, 3
+		vAssume(current == 0)
+	}
+	vPreset("netmap", []byte(snapshotCountKey), count)
 	vPreset("netmap", []byte(snapshotEpoch), epoch)
 	vPreset("netmap", []byte(snapshotBlockKey), 5)
 	vPreset("netmap", []byte(snapshotCurrentIDKey), current)
 	if era == 0 {
 		vPreset("netmap", append([]byte(snapshotKeyPrefix), 0), vSerialize([]oldNode{{BLOB: blobA}, {BLOB: blobC}}))
-		vPreset("netmap", append([]byte(snapshotKeyPrefix), 1), vSerialize([]oldNode{{BLOB: blobB}}))
+		vPreset("netmap", append([]byte(snapshotKeyPrefix), prevSlot), vSerialize([]oldNode{{BLOB: blobB}}))
 		vPreset("netmap", append(append([]byte{}, candidatePrefix...), vKey("nA")...), vSerialize(oldCandidate{f1: oldNode{BLOB: blobA}, f2: nodestate.Type(stA)}))
 		vPreset("netmap", append(append([]byte{}, candidatePrefix...), vKey("nB")...), vSerialize(oldCandidate{f1: oldNode{BLOB: blobB}, f2: nodestate.Type(stB)}))
 	} else {
@@ -65,7 +73,7 @@ func VerifC16MigrateNetmap() {
 	pending := false
 	if era <= 1 {
 		switch notary {
-		case 1:
+		case 1, 8:
 			vPreset("netmap", []byte("notary"), false)
 		case 2:
 			vPreset("netmap", []byte("notary"), true)
